@@ -634,27 +634,30 @@ def parseCif (o : Opts) (fuel : Nat) (s : PS) : P Unit :=
 def disallowedInitial (c : CU) : Bool :=
   if c > cif1MaxChar then c != 0xFEFF else Chars.classOf .cif2 c == .no
 
+/-- what cif_parse_internal does once get_first_char() has delivered the first character `c` (and the callback, if asked,
+    accepted it): an initial U+FEFF is consumed; in CIF 1.1 mode it is reported (CIF_DISALLOWED_CHAR); CIF 2.0 text in another
+    encoding than UTF-8 is reported (CIF_WRONG_ENCODING); a non-zero answer to either is returned AS IS (no clamp); parse_cif -/
+def afterFirst (o : Opts) (fuel : Nat) (c : CU) (rest : Str) : P Unit :=
+  let bom := c == 0xFEFF
+  let input := if bom then rest else c :: rest
+  if bom ∧ rest.isEmpty then pure ()                           -- BOM-only CIF
+  else do
+    if o.dia = .cif1 then
+      (if bom then report CIF_DISALLOWED_CHAR 1 0 else pure ())
+    else
+      (if o.notUtf8 then report CIF_WRONG_ENCODING 1 1 else pure ())
+    parseCif o fuel { scan := Scan.init input, tok := none }
+
 /-- cif_parse_internal on the units the character source delivers to the scanner (line terminators already converted by
     get_first_char / get_more_chars: Model/Fill.lean).  `fuel` bounds the nesting of calls and the iterations of each loop. -/
 def parseInternal (o : Opts) (fuel : Nat) (units : Str) : P Unit :=
   match units with
-  | [] => pure ()                                                -- empty CIF
-  | c :: rest => do
+  | [] => P.pure ()                                              -- empty CIF
+  | c :: rest =>
     -- get_first_char(): a non-zero answer of the callback is returned to cif_parse_internal, which takes the value -1 for
     -- CIF_EOF ("empty CIF": nothing is parsed, the result is CIF_OK) and returns any other value unchanged
-    let rv ← if disallowedInitial c then ask CIF_DISALLOWED_INITIAL_CHAR 1 0 else pure 0
-    if rv = -1 then pure ()
-    else if rv ≠ 0 then fail rv
-    else
-      let bom := c == 0xFEFF
-      let input := if bom then rest else c :: rest
-      if bom ∧ rest.isEmpty then pure ()                           -- BOM-only CIF
-      else do
-        if o.dia = .cif1 then
-          (if bom then report CIF_DISALLOWED_CHAR 1 0 else pure ())
-        else
-          (if o.notUtf8 then report CIF_WRONG_ENCODING 1 1 else pure ())
-        parseCif o fuel { scan := Scan.init input, tok := none }
+    P.bind (if disallowedInitial c then ask CIF_DISALLOWED_INITIAL_CHAR 1 0 else P.pure 0)
+      (fun rv => if rv = -1 then P.pure () else if rv ≠ 0 then fail rv else afterFirst o fuel c rest)
 
 /-- outcome of a whole parse: return value, reports in order of occurrence, the target CIF afterwards -/
 structure Outcome where
